@@ -64,6 +64,28 @@ def main(ctx, args):
                     n, k = rng.below(N + 1), 2 + rng.below(2)
                     n2 = rng.below(N + 1)
                     cases.append(dict(base, id=f"{pr['id']}|{be}|{n}x{k}+{n2}", events=[[n, 0]] * k + [[n2, 0]]))
+    # second family: the last cells of the layout sit in an `if` arm that is first taken only after K samples, so that at
+    # early split points part of the state has never been touched (on WASM the storage is then still shorter than the layout)
+    if not args.replay:
+        import voicegen
+        lib = voicegen.lib()
+        order = ["cnt", "lag"] + [k for k in voicegen.KINDS if k not in ("cnt", "lag")]
+        defs = "\n".join(lib[k].src() for k in order)
+        ngated = 12 if ctx.tier == "quick" else 150
+        for g in range(ngated):
+            K = 1 + rng.below(N - 3)
+            gate = rng.pick(voicegen.KINDS)
+            pre = [rng.pick(voicegen.KINDS) for _ in range(rng.below(3))]
+            body = "  let c = cnt(1.0)\n" + "".join(f"  let p{i} = {k}(c * {rng.pick(voicegen.CONSTS)})\n" for i, k in enumerate(pre))
+            acc = " + ".join(["c * 1000.0"] + [f"p{i}" for i in range(len(pre))])
+            src = f"{defs}\nfn dsp() {{\n{body}  if (c > {K}.0) {{\n    {acc} + {gate}({rng.pick(voicegen.CONSTS)})\n  }} else {{\n    {acc}\n  }}\n}}\n"
+            pid_ = f"gated{g}"
+            for be in ("vm", "wasm"):
+                base = dict(backend=be, srcs=[src], times=N, inputs=[], prog_id=pid_)
+                cases.append(dict(base, id=f"{pid_}|{be}|base", events=[]))
+                for n in range(0, N + 1):
+                    cases.append(dict(base, id=f"{pid_}|{be}|{n}x1", events=[[n, 0]]))
+                cases.append(dict(base, id=f"{pid_}|{be}|2x2", events=[[max(1, K - 1), 0]] * 2))
     res = run_hist(cases)
     failures, stats, nontriv, samples = [], collections.Counter(), set(), []
     basel = {}
@@ -76,6 +98,11 @@ def main(ctx, args):
         st, out = res[c["id"]]
         bst, bout = basel.get((c["prog_id"], c["backend"]), ("?", "?"))
         stats["evaluations"] += 1
+        if c["prog_id"].startswith("gated") and c["backend"] == "wasm" and basel.get((c["prog_id"], "vm")) != (bst, bout):
+            # a stateful call inside an `if` arm is miscompiled for WASM in some shapes (findings F3/F4 of C01/C05): the
+            # family is judged on WASM only where its uninterrupted run equals the VM's
+            stats["gated_wasm_skipped_F4"] += 1
+            continue
         if not bst.startswith("ok"):
             stats["base_not_ok_" + bst.split(" ")[0]] += 1
             if bst.split(" ")[0] not in ("compile-error",):
@@ -108,6 +135,6 @@ def main(ctx, args):
         "samples": samples or [{"note": "replay mode"}],
         "traces_validated_against_impl": stats["evaluations"],
         "failures": len(failures),
-        "skipped": {k: v for k, v in stats.items() if k.startswith("base_not_ok")},
+        "skipped": {k: v for k, v in stats.items() if k.startswith("base_not_ok") or k.startswith("gated_")},
     })
     ctx.finish("proof")
